@@ -15,10 +15,15 @@ DEFAULT_EXCLUDED = ["test/**", "tests/**", "**/__test__/**", "**/__tests__/**", 
                     "**/site-packages/**", ".venv/**", ".tox/**", ".nox/**", ".eggs/**", ".git/**", ".mypy_cache/**",
                     ".pytest_cache/**", ".hypothesis/**", ".coverage*"]
 
-FF_CODEMODS = ["pixee:python/remove-unnecessary-f-str", "pixee:python/fix-mutable-params", "pixee:python/use-set-literal"]
+FF_CODEMODS = ["pixee:python/remove-unnecessary-f-str", "pixee:python/fix-mutable-params", "pixee:python/use-set-literal",
+               # semgrep-detected find-and-fix codemods: their detector falls back to scanning the whole directory when the
+               # pre-filter found nothing among the selected files
+               "pixee:python/secure-random", "pixee:python/harden-pyyaml"]
 SAST_CODEMODS = ["sonar:python/fix-assert-tuple", "sonar:python/exception-without-raise", "sonar:python/remove-assertion-in-pytest-raises"]
 DIRS = ["", "pkg", "pkg/sub", "pkg/sub/deep", "app", "tests", "tests/unit", "test", "build/lib", "dist", "venv/lib", ".venv", ".git/hooks",
-        "lib/site-packages/x", "pkg/__tests__", "src/__test__", ".tox/py", "docs"]
+        "lib/site-packages/x", "pkg/__tests__", "src/__test__", ".tox/py", "docs",
+        # directories whose *suffix* looks like a default-excluded or user-named one (patterns are anchored at the start)
+        "pkg/tests", "src/build", "app/dist", "pkg/venv/lib", "lib/app", "x/pkg", "legacy"]
 NAMES = ["a.py", "b.py", "ab.py", "conftest.py", "mod.py", "x1.py", "x2.py", "notes.txt", "data.json", "A.py", "a.pyi", ".coveragerc.py"]
 
 
